@@ -10,9 +10,9 @@ CONSTANTS
   InitStamps = {0}
   NoDefault = {"p1"}
   InitScopeSets = {{"all"}}
-  HiddenChoices = {{}}
+  HiddenChoices = {{}, {"p2"}}
   ActScopes = {"mod"}
-  RepKinds = {"ReadOk", "ReadRaise", "ReadInvalid", "AssignInvalid", "Activate"}
+  RepKinds = {}
   MaxNow = 3
 CONSTRAINT TimeBound
 INVARIANT TypeOK
